@@ -1166,3 +1166,155 @@ Lemma demo_manual_non_boundary :
 Proof.
   split; [|vm_compute; reflexivity]. intros q H. injection H as <-. vm_compute. intuition discriminate.
 Qed.
+
+(* ====================================================================================================== *)
+(* ---------- concurrent schedule / auto calls: valid stream and job bracket under every interleaving ---------- *)
+Definition ended_ids (l : list ev) : list N :=
+  flat_map (fun e => match ebody e with BJobEnded j _ _ => [j] | _ => [] end) l.
+Definition holds (a : astate) : list N :=
+  match a with
+  | ADecide _ _ _ j | ASnap _ _ j | ACut _ j _ _ _ | AWrite _ j _ _ _ _ _ | AEnd _ j _ _ _ => [j]
+  | _ => []
+  end.
+Definition held (acts : list astate) : list N := flat_map holds acts.
+
+(* job_ended only after the job_spawned of the same job *)
+Definition ended_after_spawned (l : list ev) : Prop :=
+  forall a e b j st m, l = a ++ e :: b -> ebody e = BJobEnded j st m -> In j (job_ids a).
+
+Definition bracket_ok (l : list ev) : Prop :=
+  NoDup (job_ids l) /\ NoDup (ended_ids l) /\ ended_after_spawned l.
+
+Definition cinv (s : st) (acts : list astate) : Prop :=
+  valid (log s) /\ NoDup (job_ids (log s)) /\ NoDup (held acts ++ ended_ids (log s))
+  /\ incl (held acts ++ ended_ids (log s)) (job_ids (log s)) /\ ended_after_spawned (log s).
+
+Lemma job_ids_app a b : job_ids (a ++ b) = job_ids a ++ job_ids b.
+Proof. unfold job_ids. apply flat_map_app. Qed.
+Lemma ended_ids_app a b : ended_ids (a ++ b) = ended_ids a ++ ended_ids b.
+Proof. unfold ended_ids. apply flat_map_app. Qed.
+
+Lemma split_last {A} (a : list A) x b l e :
+  a ++ x :: b = l ++ [e] -> (b = [] /\ a = l /\ x = e) \/ exists b', b = b' ++ [e] /\ l = a ++ x :: b'.
+Proof.
+  intros H. destruct (exists_last (l := x :: b)) as [b0 [y Hy]]; [discriminate|].
+  destruct b as [|z b].
+  - left. change (a ++ [x] = l ++ [e]) in H. apply app_inj_tail in H. tauto.
+  - right. destruct (exists_last (l := z :: b)) as [b' [y' Hy']]; [discriminate|].
+    rewrite Hy' in H. change (a ++ x :: b' ++ [y'] = l ++ [e]) in H.
+    replace (a ++ x :: b' ++ [y']) with ((a ++ x :: b') ++ [y']) in H by (rewrite <- app_assoc; reflexivity).
+    apply app_inj_tail in H. destruct H as [<- <-]. exists b'. split; [exact Hy' | reflexivity].
+Qed.
+
+Lemma eas_app_one l e :
+  ended_after_spawned l -> (forall j st m, ebody e = BJobEnded j st m -> In j (job_ids l)) ->
+  ended_after_spawned (l ++ [e]).
+Proof.
+  intros H He a x b j st m Hd Hb. symmetry in Hd. apply split_last in Hd.
+  destruct Hd as [[_ [-> ->]]|[b' [_ Hl]]]; [eapply He; exact Hb|]. eapply H; [exact Hl | exact Hb].
+Qed.
+
+(* what one actor step does to the stream and to the job the actor is responsible for *)
+Inductive step_kind (s s' : st) (a a' : astate) : Prop :=
+| sk_read : log s' = log s -> (holds a' = holds a \/ holds a' = []) -> step_kind s s' a a'
+| sk_other b : log s' = log (append s b) -> (forall j p st, b <> BJobSpawned j p st) -> (forall j st m, b <> BJobEnded j st m) ->
+               (holds a' = holds a \/ holds a' = []) -> step_kind s s' a a'
+| sk_spawn p st : log s' = log (append s (BJobSpawned (fresh_job (log s)) p st)) -> holds a = [] ->
+                  holds a' = [fresh_job (log s)] -> step_kind s s' a a'
+| sk_end j stt m : log s' = log (append s (BJobEnded j stt m)) -> holds a = [j] -> holds a' = [] -> step_kind s s' a a'.
+
+Lemma astep_kind K s a : step_kind s (fst (astep K s a)) a (snd (astep K s a)).
+Proof.
+  destruct a; cbn [astep].
+  - destruct (c_sched c); [|apply sk_read; auto].
+    destruct (plan_cuts K (c_stride c) (c_maxnew c) (log s)); apply sk_read; auto.
+  - destruct (if c_block c then find_inflight K (log s) else None); apply sk_read; auto.
+  - cbn [fst snd]. eapply sk_other; [reflexivity | discriminate | discriminate | auto].
+  - destruct (plan_cuts K (c_stride c) (c_maxnew c) (log s)); apply sk_read; auto.
+  - destruct (c_sched c); cbn [fst snd]; eapply sk_spawn; reflexivity.
+  - destruct (c_exec c); cbn [fst snd]; (eapply sk_other; [reflexivity | discriminate | discriminate | auto]).
+  - apply sk_read; auto.
+  - destruct todo as [|p rest]; [apply sk_read; auto|].
+    destruct (cut_read K snap s p); apply sk_read; auto.
+  - cbv beta iota zeta delta [put_art]. cbn [fst snd].
+    eapply sk_other; [reflexivity | discriminate | discriminate | auto].
+  - cbn [fst snd]. eapply sk_end; reflexivity.
+  - apply sk_read; auto.
+Qed.
+
+Lemma held_split pre a post : held (pre ++ a :: post) = held pre ++ holds a ++ held post.
+Proof. unfold held. rewrite flat_map_app. reflexivity. Qed.
+
+Lemma job_ids_append_other s b : (forall j p st, b <> BJobSpawned j p st) -> job_ids (log (append s b)) = job_ids (log s).
+Proof.
+  intros H. unfold append. cbn [log]. rewrite job_ids_app. unfold job_ids at 2. cbn [flat_map ebody].
+  destruct b; try (cbn; apply app_nil_r). exfalso. eapply H. reflexivity.
+Qed.
+Lemma ended_ids_append_other s b : (forall j st m, b <> BJobEnded j st m) -> ended_ids (log (append s b)) = ended_ids (log s).
+Proof.
+  intros H. unfold append. cbn [log]. rewrite ended_ids_app. unfold ended_ids at 2. cbn [flat_map ebody].
+  destruct b; try (cbn; apply app_nil_r). exfalso. eapply H. reflexivity.
+Qed.
+
+Lemma nodup_drop_mid {A} (x y z w : list A) : NoDup (x ++ y ++ z ++ w) -> NoDup (x ++ z ++ w).
+Proof.
+  induction y as [|a y IH]; intros H; [exact H|]. apply IH. cbn [app] in H. eapply NoDup_remove_1. exact H.
+Qed.
+Lemma incl_drop_mid {A} (x y z w t : list A) : incl (x ++ y ++ z ++ w) t -> incl (x ++ z ++ w) t.
+Proof.
+  intros H u Hu. apply H. apply in_app_or in Hu. apply in_or_app. destruct Hu as [Hu|Hu]; [left; exact Hu|].
+  right. apply in_or_app. right. exact Hu.
+Qed.
+
+Lemma cinv_step K s pre a post :
+  cinv s (pre ++ a :: post) -> cinv (fst (astep K s a)) (pre ++ snd (astep K s a) :: post).
+Proof.
+  intros [Hv [Hj [Hn [Hi He]]]]. pose proof (astep_kind K s a) as Hk.
+  destruct (astep K s a) as [s' a']. cbn [fst snd] in *. rewrite held_split in *.
+  assert (Hsame : forall l', valid l' -> job_ids l' = job_ids (log s) -> ended_ids l' = ended_ids (log s) ->
+                             ended_after_spawned l' -> (holds a' = holds a \/ holds a' = []) ->
+                             cinv {| log := l'; arts := arts s' |} (pre ++ a' :: post)).
+  { intros l' Hv' Hj' He' Heas Hh. unfold cinv. cbn [log]. rewrite held_split, Hj', He'.
+    split; [exact Hv'|]. split; [exact Hj|]. destruct Hh as [->| ->]; [auto|].
+    rewrite <- !app_assoc in *. cbn [app].
+    split; [eapply nodup_drop_mid; exact Hn|]. split; [eapply incl_drop_mid; exact Hi | exact Heas]. }
+  assert (Hlog : forall l', log s' = l' -> cinv {| log := l'; arts := arts s' |} (pre ++ a' :: post) -> cinv s' (pre ++ a' :: post)).
+  { intros l' <- H. exact H. }
+  destruct Hk as [Hl Hh | b Hl Hns Hne Hh | p stt Hl Hh Hh' | j stt m Hl Hh Hh'].
+  - apply (Hlog (log s) Hl). apply Hsame; auto.
+  - apply (Hlog _ Hl). apply Hsame; auto.
+    + apply valid_append, Hv.
+    + apply job_ids_append_other, Hns.
+    + apply ended_ids_append_other, Hne.
+    + unfold append. cbn [log]. apply eas_app_one; [exact He|]. cbn [ebody]. intros j st m Hb. exfalso. eapply Hne, Hb.
+  - (* job_spawned with a fresh id *)
+    apply (Hlog _ Hl). unfold cinv. cbn [log]. rewrite held_split, Hh'. rewrite Hh in Hn, Hi. cbn [app] in Hn, Hi.
+    set (j := fresh_job (log s)) in *.
+    assert (Hfresh : ~ In j (job_ids (log s))) by apply fresh_job_not_in.
+    assert (Ej : job_ids (log (append s (BJobSpawned j p stt))) = job_ids (log s) ++ [j]).
+    { unfold append. cbn [log]. rewrite job_ids_app. reflexivity. }
+    assert (Ee : ended_ids (log (append s (BJobSpawned j p stt))) = ended_ids (log s))
+      by (apply ended_ids_append_other; discriminate).
+    rewrite Ej, Ee. split; [apply valid_append, Hv|]. split; [|split; [|split]].
+    + eapply Permutation_NoDup; [apply Permutation_cons_append|]. constructor; assumption.
+    + rewrite <- app_assoc. cbn [app].
+      eapply Permutation_NoDup; [apply Permutation_middle|]. constructor; [|rewrite <- app_assoc in Hn; exact Hn].
+      intros Hin. apply Hfresh. apply Hi. rewrite <- app_assoc. exact Hin.
+    + intros u Hu. specialize (Hi u). rewrite !in_app_iff in *. cbn [In] in *. intuition.
+    + unfold append. cbn [log]. apply eas_app_one; [exact He|]. cbn [ebody]. discriminate.
+  - (* job_ended for the job this actor holds *)
+    apply (Hlog _ Hl). unfold cinv. cbn [log]. rewrite held_split, Hh'. rewrite Hh in Hn, Hi. cbn [app] in *.
+    assert (Ej : job_ids (log (append s (BJobEnded j stt m))) = job_ids (log s))
+      by (apply job_ids_append_other; discriminate).
+    assert (Ee : ended_ids (log (append s (BJobEnded j stt m))) = ended_ids (log s) ++ [j]).
+    { unfold append. cbn [log]. rewrite ended_ids_app. reflexivity. }
+    assert (Hjin : In j (job_ids (log s))).
+    { apply Hi. rewrite !in_app_iff. cbn [In]. tauto. }
+    rewrite Ej, Ee. split; [apply valid_append, Hv|]. split; [exact Hj|]. split; [|split].
+    + rewrite <- app_assoc in *. cbn [app] in *.
+      eapply Permutation_NoDup; [|exact Hn].
+      apply Permutation_app_head. rewrite app_assoc. apply Permutation_cons_append.
+    + intros u Hu. specialize (Hi u). rewrite !in_app_iff in *. cbn [In] in *. intuition.
+    + unfold append. cbn [log]. apply eas_app_one; [exact He|]. cbn [ebody].
+      intros j' st' m' Hb. injection Hb as <- _ _. exact Hjin.
+Qed.
